@@ -191,6 +191,7 @@ class FuncTypes:
         self.locals = {}
         self.scope = {}  # id(scope node) -> {name: type}
         self._param_types()
+        self._param_types_from_call_sites()
         for _ in range(4):
             before = (dict(self.locals), {k: dict(v) for k, v in self.scope.items()})
             self._pass()
@@ -237,6 +238,51 @@ class FuncTypes:
                         self.locals.setdefault(name, t)
                     else:
                         self.scope.setdefault(id(fn), {})[name] = t
+
+    _SITE_BUSY = set()
+
+    def _param_types_from_call_sites(self):
+        """A module-level helper that is only called by name: an untyped parameter has the union of the types its call sites pass
+        (`_initialize_all(self.worker_list, ...)`, `_initialize_all([self.organization, self.workflow], ...)`)."""
+        f = self.func
+        if f.cls is not None or getattr(f, "parent", None) is not None or id(f.node) in FuncTypes._SITE_BUSY:
+            return
+        a = f.node.args
+        pos = [x.arg for x in a.posonlyargs + a.args]
+        want = [p for p in pos if p not in self.locals]
+        if not want or a.vararg or a.kwarg:
+            return
+        FuncTypes._SITE_BUSY.add(id(f.node))
+        try:
+            got = {p: [] for p in want}
+            for g in self.repo.all_funcs():
+                if g.node is f.node:
+                    continue
+                sites = [c for c in ast.walk(g.node) if isinstance(c, ast.Call) and isinstance(c.func, ast.Name) and c.func.id == f.name]
+                if not sites or self.repo.function_for(f.name, g.module) is not f:
+                    continue
+                gt = self.table.ftypes(g)
+                for c in sites:
+                    if any(isinstance(x, ast.Starred) for x in c.args) or any(k.arg is None for k in c.keywords):
+                        return
+                    for p in want:
+                        e = c.args[pos.index(p)] if pos.index(p) < len(c.args) else next((k.value for k in c.keywords if k.arg == p), None)
+                        got[p].append(gt.type_of(e) if e is not None else None)
+            for p, ts in got.items():
+                if not ts or any(t is None for t in ts):
+                    continue
+                t = ts[0] if all(x == ts[0] for x in ts) else None
+                if t is None and all(x[0] in ("list", "set", "tuple") for x in ts) and all(elem(x) is not None for x in ts):
+                    t = FuncTypes._concat_type([("list", elem(x)) for x in ts], "list")
+                elif t is None and all(x[0] in ("obj", "union") for x in ts):
+                    flat = []
+                    for x in ts:
+                        flat.extend(x[1:] if x[0] == "union" else [x])
+                    t = ("union",) + tuple(dict.fromkeys(flat))
+                if t is not None:
+                    self.locals.setdefault(p, t)
+        finally:
+            FuncTypes._SITE_BUSY.discard(id(f.node))
 
     def _bind(self, target, t, table):
         if t is None:
@@ -354,6 +400,9 @@ class FuncTypes:
         if isinstance(e, (ast.ListComp, ast.GeneratorExp, ast.SetComp)):
             t = self.type_of(e.elt, depth)
             return ("set" if isinstance(e, ast.SetComp) else "list", t)
+        if isinstance(e, (ast.List, ast.Set, ast.Tuple)) and e.elts and all(isinstance(x, ast.Starred) for x in e.elts):
+            # [*a, *b]: the concatenation of the element types
+            return self._concat_type([self.type_of(x.value, depth) for x in e.elts], "set" if isinstance(e, ast.Set) else "list")
         if isinstance(e, (ast.List, ast.Set)):
             t = None
             for x in e.elts:
@@ -372,6 +421,10 @@ class FuncTypes:
             return self.type_of(e.body, depth) or self.type_of(e.orelse, depth)
         if isinstance(e, ast.BinOp):
             lt = self.type_of(e.left, depth)
+            if isinstance(e.op, ast.Add) and lt and lt[0] == "list":
+                rt = self.type_of(e.right, depth)
+                if rt and rt[0] == "list" and rt != lt:
+                    return self._concat_type([lt, rt], "list")
             if lt and lt[0] in ("list", "set"):
                 return lt
             rt = self.type_of(e.right, depth)
@@ -381,6 +434,23 @@ class FuncTypes:
         if isinstance(e, ast.Call):
             return self._call_type(e, depth)
         return None
+
+    @staticmethod
+    def _concat_type(ts, kind):
+        ets = [elem(t) if t else None for t in ts]
+        if not ets or any(t is None for t in ets):
+            return None
+        if all(t == ets[0] for t in ets):
+            return (kind, ets[0])
+        flat = []
+        for t in ets:
+            if t[0] == "union":
+                flat.extend(t[1:])
+            elif t[0] == "obj":
+                flat.append(t)
+            else:
+                return None
+        return (kind, ("union",) + tuple(dict.fromkeys(flat)))
 
     def _call_type(self, e, depth):
         f = e.func
@@ -422,7 +492,7 @@ class FuncTypes:
                     return ("enum", n)
                 return obj(n)
             if n in r.functions and depth < 3:
-                return self.table.return_type(r.functions[n], depth)
+                return self.table.return_type(r.function_for(n, self.func.module), depth)
             return None
         if isinstance(f, ast.Attribute):
             if f.attr == "chain" and e.args and ast.unparse(f.value) == "itertools":
@@ -505,7 +575,7 @@ class FuncTypes:
         r = self.repo
         if isinstance(f, ast.Name):
             if f.id in r.functions:
-                return [r.functions[f.id]], True
+                return [r.function_for(f.id, self.func.module)], True
             if f.id in r.classes and r.classes[f.id].enum_members is None:
                 m = r.lookup_method(f.id, "__init__")
                 return ([m] if m else []), True
